@@ -253,6 +253,30 @@ theorem forward_append (s : Srv) (a b : List Step) :
   | nil => simp [forward, run]
   | cons x r ih => simp only [List.cons_append, forward, run_cons, ih, Bool.and_assoc]
 
+/-! ### the backend kind never changes -/
+
+theorem backend_step (s : Srv) (st : Step) : (step s st).backend = s.backend := by
+  cases st with
+  | qstart => rfl
+  | qread i =>
+    by_cases c : i < s.nq ∧ (s.queries i).done = false
+    · rw [step_qread_eq s i c.1 c.2]
+    · rw [step_qread_skip s i c]
+  | qfinish i =>
+    by_cases c : i < s.nq
+    · rw [step_qfinish_eq s i c]
+    · rw [step_qfinish_skip s i c]
+  | publish p g => rfl
+  | reload k o =>
+    show (reload s k o).backend = s.backend
+    rcases reload_cases s k o with e | ⟨d, _, _, _, e⟩ | ⟨d, _, _, _, e⟩ | ⟨d, _, _, _, e⟩ <;>
+      rw [e] <;> rfl
+
+theorem backend_run (s : Srv) (steps : List Step) : (run s steps).backend = s.backend := by
+  induction steps generalizing s with
+  | nil => rfl
+  | cons st rest ih => rw [run_cons, ih, backend_step]
+
 /-! ### ordering invariant (forward-moving operator) -/
 
 structure Inv1 (s : Srv) : Prop where
